@@ -22,6 +22,7 @@ import (
 	"os"
 	"os/exec"
 	"reflect"
+	"regexp"
 	"regexp/syntax"
 	"sort"
 	"strconv"
@@ -837,6 +838,36 @@ func c9GenTpl(r *h.Rng) c9Tpl {
 		}
 	}
 	return c9Tpl{text.String(), strings.Join(toks, ",")}
+}
+
+var c9TplRe = regexp.MustCompile(`\{\{if eq \.(\w+) ("(?:[^"\\]|\\.)*")\}\}\{\{index \.(\w+) 99\}\}\{\{end\}\}|\{\{\.(\w+)\}\}`)
+
+// c9TokeniseTpl: the token list of a template written by c9GenTpl
+func c9TokeniseTpl(text string) (string, bool) {
+	var toks []string
+	pos := 0
+	for _, m := range c9TplRe.FindAllStringSubmatchIndex(text, -1) {
+		if m[0] > pos {
+			toks = append(toks, "l."+hx(text[pos:m[0]]))
+		}
+		if m[2] >= 0 {
+			var val string
+			if err := json.Unmarshal([]byte(text[m[4]:m[5]]), &val); err != nil || text[m[2]:m[3]] != text[m[6]:m[7]] {
+				return "", false
+			}
+			toks = append(toks, "e."+hx(text[m[2]:m[3]])+"."+hx(val))
+		} else {
+			toks = append(toks, "f."+hx(text[m[8]:m[9]]))
+		}
+		pos = m[1]
+	}
+	if pos < len(text) {
+		toks = append(toks, "l."+hx(text[pos:]))
+	}
+	if strings.Contains(strings.Join(toks, ","), hx("{{")) {
+		return "", false
+	}
+	return strings.Join(toks, ","), true
 }
 
 var c9Keys = []string{"a", "ab", "b", "abc", "v", "n", "msg", "lvl", "x", "y", "k_1", "k.1", "k 1", "K", "bc"}
@@ -1661,13 +1692,26 @@ func c09(r *h.Result, rng *h.Rng, tier string, replay string) error {
 		c := rp.Replay
 		c.Batching = [][][]c9Entry{c.Batches}
 		g := &c9Gen{Case: c, Kind: "replay"}
-		// templates of a replayed query cannot be re-tokenised: the model tie is skipped, the crash/hang/fps oracles apply
+		// the templates of the query are tokenised again (they come from the generator's three-token sublanguage)
+		if script, err := logql_parser.Parse(c.Query); err == nil {
+			if sel := shared.GetStrSelector(script); sel != nil {
+				for _, p := range sel.Pipelines {
+					if p.LineFormat != nil {
+						if text, err := p.LineFormat.Val.Unquote(); err == nil {
+							if toks, ok := c9TokeniseTpl(text); ok {
+								g.Tpls = append(g.Tpls, c9Tpl{text, toks})
+							}
+						}
+					}
+				}
+			}
+		}
 		return c9Judge(r, []*c9Gen{g})
 	}
 	rng = h.NewRng(rng.U64() ^ 0xC09C09C09) // h.NewRng(s) and h.NewRng(s+1) are one step apart: re-seed from an output
 	nCases, nBatchings, maxEntries := 1200, 3, 60
 	if tier != "quick" {
-		nCases, nBatchings, maxEntries = 4000, 8, 60
+		nCases, nBatchings, maxEntries = 8000, 8, 60
 	}
 	var gens []*c9Gen
 	for i := 0; i < nCases; i++ {
